@@ -504,15 +504,12 @@ class FunctionParser(BaseParser):
             else:
                 optional_name = k
 
-    def resolve_forward_refs(self, local_vars=None, ignore_errors: bool = True):
-        resolved = super().resolve_forward_refs(
-            local_vars=local_vars, ignore_errors=ignore_errors
-        )
-        if resolved:
-            if self.position_type:
-                self.position_type, r = resolve_forward_type(self.position_type)
-            if self.return_type:
-                self.return_type, r = resolve_forward_type(self.return_type)
+    def resolve_forward_types(self):
+        super().resolve_forward_types()
+        if self.position_type:
+            self.position_type, r = resolve_forward_type(self.position_type)
+        if self.return_type:
+            self.return_type, r = resolve_forward_type(self.return_type)
 
     def wrap(
         self,
